@@ -4,6 +4,8 @@
 pub mod asm;
 pub mod core;
 pub mod des;
+pub mod guest;
+pub mod sysrun;
 pub mod models;
 pub mod prng;
 pub mod props;
@@ -349,6 +351,9 @@ macro_rules! dispatch {
     ($id:expr, $f:ident, $($arg:expr),*) => {
         match $id {
             "C17" => $f::<props::c17::C17>($($arg),*),
+            "C16" => $f::<props::c16::C16>($($arg),*),
+            "C10" => $f::<props::c10::C10>($($arg),*),
+            "C06" => $f::<props::c10::C06>($($arg),*),
             other => {
                 eprintln!("unknown property {}", other);
                 2
